@@ -92,6 +92,7 @@ THEOREMS = [
     "Typedpy.C18.fixed_nested_structure_examples",
     "Typedpy.C18.p1SitesD_tops",
     "Typedpy.C18.wrapper_path_examples",
+    "Typedpy.C18.nested_expansion_depends_on_inner_shape",
 ]
 RULE = ("flat classes (1..5 fields: Integer/Number/Float incl. sign variants, String, Boolean, Enum, and Array/Deque/"
         "Set/Tuple/Map over them) from the type-directed declaration generator; per class a valid argument set, then "
